@@ -171,6 +171,11 @@ func propC13(r *Run) {
 			over = true
 		}
 		f[i] = seededBytes(uint64(r.Choose("eseed", 1000)+i*31), n)
+		if n > 0 && r.Choose("field-ends-in-nul", 6) == 0 {
+			// bytes a C client might think of as terminators are data here
+			k := 1 + r.Choose("nul-count", min(n, 3))
+			f[i] = f[i][:n-k] + strings.Repeat("\x00", k)
+		}
 	}
 	// an earlier Encode whose writer failed half-way (the peer hung up) must leave nothing
 	// behind that shows up in later messages
